@@ -358,6 +358,33 @@ def run(ctx, eng):
     ctx.ob('FLOW.queue', f4.qual, 'pending unknown identifiers read as '
            'absent', none_is_absent, 'raise KeyError while the first '
            'element is the None placeholder', node=f4.node)
+    # pending values become current when the peer says so and at no other
+    # time: the two acknowledge handlers are reached from the SETTINGS
+    # handler only (the h2c upgrade goes through it as well)
+    for hname in ('_local_settings_acked', '_acknowledge_settings'):
+        callers = sorted({f.qual.split('.')[-1] for f, _ in
+                          cm.find_funcs_calling(eng, hname)})
+        ctx.ob('OWN.ack-caller', H + hname, 'called from the SETTINGS '
+               'handler only', callers == ['_receive_settings_frame'],
+               'callers: %s' % callers)
+    # the queues are unbounded: any number of SETTINGS frames may be in
+    # flight, and a bounded deque would silently drop the value in force
+    import ast as _ast
+    bounded = []
+    smod = m.modules['settings']
+    for nd in _ast.walk(smod.tree):
+        if isinstance(nd, _ast.Call) and (
+                (isinstance(nd.func, _ast.Attribute) and
+                 nd.func.attr == 'deque') or
+                (isinstance(nd.func, _ast.Name) and nd.func.id == 'deque')):
+            if len(nd.args) > 1 or any(k.arg == 'maxlen' and not (
+                    isinstance(k.value, _ast.Constant) and
+                    k.value.value is None) for k in nd.keywords):
+                bounded.append(nd)
+    ctx.ob('FLOW.queue', 'settings.Settings._settings', 'queues are '
+           'unbounded', not bounded, 'no deque(..., maxlen=n) in settings.py'
+           if not bounded else 'a pending-value queue is built with a '
+           'maximum length', node=bounded[0] if bounded else None)
     f5 = m.func('settings.Settings.__setitem__')
     bad = []
     n = 0
@@ -444,6 +471,10 @@ def run(ctx, eng):
            % sorted(reads_ack), node=f6.node)
     ctx.assume('the full ordering semantics over histories beyond these '
                'clauses are not decided')
+    cm.include(ctx, eng, 'C03', {'ARITH.window-guard'},
+               '"applied correctly": the peer\'s INITIAL_WINDOW_SIZE delta '
+               'moves every stream window by exactly that amount, below zero '
+               'if need be')
     cm.include(ctx, eng, 'C25',
                lambda o: o.rule == 'FLOW.codec' and 'server' in o.desc,
                'the settings a client hands over in HTTP2-Settings are a '
